@@ -46,7 +46,7 @@ type Prop struct{}
 func (Prop) ID() string { return "C13" }
 func (Prop) Size(tier string) int {
 	if tier == "thorough" {
-		return 3000000
+		return 20000000
 	}
 	return 60000
 }
